@@ -766,99 +766,6 @@ Proof.
   - intros t Ht. rewrite x_assoc_tag by assumption. destruct t; try (exfalso; apply Ht; reflexivity); reflexivity.
 Qed.
 
-(* ---------------------------------------------------------------- substrings: pieces of a split, stripped texts *)
-
-Lemma x_prefix_app : forall p a w, prefixb p a = true -> prefixb p (a ++ w) = true.
-Proof.
-  induction p as [|c p IH]; intros a w H; [reflexivity|].
-  destruct a as [|y a]; [discriminate H|]. cbn [prefixb append] in *.
-  apply andb_true_iff in H. destruct H as [H1 H2]. rewrite H1, (IH a w H2). reflexivity.
-Qed.
-
-Lemma x_prefix_contains : forall p s, prefixb p s = true -> contains p s = true.
-Proof. intros p s H. destruct s; cbn [contains]; rewrite H; reflexivity. Qed.
-
-Lemma x_contains_app_r : forall p a w, contains p a = true -> contains p (a ++ w) = true.
-Proof.
-  intros p a w. induction a as [|y a IH]; intro H.
-  - cbn [contains] in H. rewrite orb_false_r in H. apply x_prefix_contains. apply (x_prefix_app p "" w H).
-  - cbn [contains] in H. apply orb_true_iff in H. destruct H as [H|H].
-    + apply x_prefix_contains. apply (x_prefix_app p (String y a) w H).
-    + cbn [append contains]. rewrite (IH H). apply orb_true_r.
-Qed.
-
-Lemma x_contains_app_l : forall p a b, contains p b = true -> contains p (a ++ b) = true.
-Proof.
-  intros p a b H. induction a as [|y a IH]; [exact H|]. cbn [append contains]. rewrite IH. apply orb_true_r.
-Qed.
-
-Lemma x_contains_mid : forall p a m b, contains p m = true -> contains p (a ++ m ++ b) = true.
-Proof. intros p a m b H. apply x_contains_app_l. apply x_contains_app_r. exact H. Qed.
-
-Lemma x_rstrip_prefix : forall s, exists w, s = rstrip s ++ w.
-Proof.
-  induction s as [|c s [w Hw]]; [exists ""; reflexivity|].
-  cbn [rstrip]. destruct (rstrip s) as [|y t] eqn:E.
-  - destruct (is_space c); [exists (String c s); reflexivity | exists s; reflexivity].
-  - exists w. cbn [append]. f_equal. exact Hw.
-Qed.
-
-Lemma x_contains_lstrip : forall p s, contains p (lstrip s) = true -> contains p s = true.
-Proof.
-  intros p s. induction s as [|c s IH]; intro H; [exact H|].
-  cbn [lstrip] in H. destruct (is_space c); [|exact H].
-  cbn [contains]. rewrite (IH H). apply orb_true_r.
-Qed.
-
-Lemma x_contains_strip : forall p s, contains p (py_strip s) = true -> contains p s = true.
-Proof.
-  intros p s H. unfold py_strip in H. apply x_contains_lstrip in H.
-  destruct (x_rstrip_prefix s) as [w Hw]. rewrite Hw. apply x_contains_app_r. exact H.
-Qed.
-
-(* every piece of a split is a part of the text (the first one a prefix) *)
-Lemma x_split_sub : forall c s,
-  match split_on c s with
-  | [] => False
-  | h :: t => (exists b, s = h ++ b) /\ (forall piece, In piece t -> exists a b, s = a ++ piece ++ b)
-  end.
-Proof.
-  intros c s. induction s as [|y s IH].
-  - cbn [split_on]. split; [exists ""; reflexivity|]. intros piece [].
-  - cbn [split_on]. destruct (split_on c s) as [|h t]; [destruct IH|]. destruct IH as [[b Hb] Ht].
-    assert (Hall : forall piece, In piece t -> exists a b, String y s = a ++ piece ++ b).
-    { intros piece Hin. destruct (Ht piece Hin) as [a [b' E]]. exists (String y a), b'. cbn [append]. f_equal. exact E. }
-    destruct (Ascii.eqb y c).
-    + split; [exists (String y s); reflexivity|].
-      intros piece [Hp|Hin]; [|exact (Hall piece Hin)].
-      subst piece. exists (String y ""), b. cbn [append]. f_equal. exact Hb.
-    + split; [exists b; cbn [append]; f_equal; exact Hb | exact Hall].
-Qed.
-
-Lemma x_split_piece : forall p c s piece, In piece (split_on c s) -> contains p piece = true -> contains p s = true.
-Proof.
-  intros p c s piece Hin H. pose proof (x_split_sub c s) as Hs.
-  destruct (split_on c s) as [|h t]; [destruct Hin|]. destruct Hs as [[b Hb] Ht].
-  destruct Hin as [Hin|Hin].
-  - subst piece. rewrite Hb. apply x_contains_app_r. exact H.
-  - destruct (Ht piece Hin) as [a [b' E]]. rewrite E. apply x_contains_mid. exact H.
-Qed.
-
-(* the header fields of a row whose name may hold colons *)
-Lemma x_part_avoid : forall p s extra n,
-  contains p s = false -> contains p extra = false -> contains p "" = false ->
-  contains p (py_strip (nth n (split_on ":" s ++ [extra])%list "")) = false.
-Proof.
-  intros p s extra n Hs He H0.
-  destruct (contains p (py_strip (nth n (split_on ":" s ++ [extra])%list ""))) eqn:E; [|reflexivity].
-  apply x_contains_strip in E.
-  destruct (nth_in_or_default n (split_on ":" s ++ [extra])%list "") as [Hin|Hd].
-  - apply in_app_or in Hin. destruct Hin as [Hin|[Hin|[]]].
-    + rewrite (x_split_piece p ":" s _ Hin E) in Hs. discriminate Hs.
-    + rewrite <- Hin in E. rewrite E in He. discriminate He.
-  - rewrite Hd in E. rewrite E in H0. discriminate H0.
-Qed.
-
 (* ---------------------------------------------------------------- the association *)
 
 Theorem build_assoc : goal_assoc.
@@ -868,15 +775,15 @@ Proof.
   assert (Hnm : contains "documentation_plain" (name_text (sx_name x)) = false).
   { match goal with H : match sx_name x with Some _ => _ | None => _ end = true |- _ => revert H end.
     destruct (sx_name x) as [n|]; intro Hm; [|reflexivity]. x_split. apply negb_true_iff. assumption. }
-  rewrite x_parse_eq, HP. cbn [bind]. unfold tree_of_assoc. rewrite top_explicit_c. unfold top_head. cbv zeta. cbn [app].
+  rewrite x_parse_eq, HP. cbn [bind]. unfold tree_of_assoc. rewrite top_explicit_c. unfold top_head. cbn [app].
   rewrite (x_assoc_body S x Hok). cbn [items bind]. rewrite Hid, Hname.
   cbn [foldM].
   rewrite x_top_str; [|reflexivity|].
   2:{ change (contains "documentation_plain" (String "b" (String SQ (sx_id x)))) with (contains "documentation_plain" (sx_id x)).
       apply negb_true_iff. assumption. }
   cbn [bind].
-  rewrite x_top_str; [|reflexivity|apply x_part_avoid; [exact Hnm|reflexivity|reflexivity]]. cbn [bind].
-  rewrite x_top_str; [|reflexivity|apply x_part_avoid; [exact Hnm|reflexivity|reflexivity]]. cbn [bind].
+  rewrite x_top_str; [|reflexivity|exact Hnm]. cbn [bind].
+  rewrite x_top_str; [|reflexivity|reflexivity]. cbn [bind].
   set (a0 := assoc0 (sx_id x) (ostr (sx_name x))).
   set (Ents := entries (items_of (tabsn (sx_nl x) 1) (assoc_item x) (sx_layout x))).
   set (vals := map node_pv (flat_map (x_kidsf x) (sx_layout x))).
